@@ -32,7 +32,7 @@ import (
 
 func TestMain(m *testing.M) {
 	harness.Describe(
-		"cases = (corpus file from the *.fqtest commands, mutation, format, force). Mutation family: identity; truncation at every length; byte overwrite at every offset with {00,ff,7f,80,+1,-1}; single-bit flip; length-field saturation (aligned 2/4/8-byte windows set to 0, max, max-1, file length +-1, both endians); duplication/removal of aligned blocks of 1/4/16/512 bytes. Formats: the file's home format, probe, and every registered format in rotation; force on/off. Bulk through decode.Decode + full tree walk; a sample through interp.Main (dv, -V, torepr). The thorough tier enumerates the whole family for files <= 512 bytes on their home format; elsewhere cases are drawn by rapid. Worker processes journal the open case so that a process death (fatal error, stack overflow) is attributed, excluded and searched behind. Non-trivial: the decode produced a tree with >= 3 values (the decoder got past its first field); distinct = hash(file, mutation, format, force).",
+		"cases = (corpus file from the *.fqtest commands, mutation, format, force). Mutation family: identity; truncation at every length; byte overwrite at every offset with {00,ff,7f,80,+1,-1}; single-bit flip; length-field saturation (aligned 2/4/8-byte windows set to 0, max, max-1, file length +-1, both endians); duplication/removal of aligned blocks of 1/4/16/512 bytes. Formats: the file's home format, probe, and every registered format in rotation; force on/off. Bulk through decode.Decode + full tree walk; a sample through interp.Main (dv, -V, torepr). The thorough tier enumerates the whole family for files <= 512 bytes on their home format; elsewhere cases are drawn by rapid. Field-directed mutants overwrite every leaf field of the unmodified decode with 8 patterns and, for fields <= 16 bits, with every small value, unforced and forced. About 1 case in 8 hands the bytes to the decoder as a concatenation of parts (bitio.MultiReader: short reads at part boundaries). Saved inputs of repaired defects (regressions.json) are replayed on every run. Worker processes journal the open case so that a process death (fatal error, stack overflow) is attributed, excluded and searched behind. Non-trivial: the decode produced a tree with >= 3 values (the decoder got past its first field); distinct = hash(file, mutation, format, force).",
 		"a decode still running after 10 s is reported as suspected_hang (non-termination cannot be decided by running), never as a violation",
 		"an out-of-memory death under the shard limit (ulimit -v 6 GiB) is re-run alone under a 48 GiB limit and counts only if the process dies again; otherwise it is resource_inconclusive",
 		"every decode runs under a WORK budget: a context whose Err() counts the calls decode.Decode makes after each format attempt and reports a deadline after 4000 attempts; forcing the probe group or a format that hands nested data to it (force is inherited: ~130 forced decoders at every nesting level) therefore ends deterministically instead of running for minutes (label attempt-budget-exhausted); the tree built so far is still walked",
